@@ -76,7 +76,8 @@ fn res_unit(r: Result<(), StoreError>) -> String {
     match r {
         Ok(()) => "RUnit".into(),
         Err(StoreError::InvalidOperation) => "RInvalid".into(),
-        Err(e) => panic!("unexpected store error {:?}", e),
+        // any other error is a result too: the model never produces it, so the case fails the comparison
+        Err(e) => format!("RInvalid (* {} *)", format!("{:?}", e).replace("*)", "* )").chars().take(120).collect::<String>()),
     }
 }
 
@@ -377,6 +378,37 @@ fn main() {
         &mut w,
     );
 
+    // many items in one plane: the lane ids pass 255 / 256 (little-endian ids: byte order is not numeric order);
+    // a clear of one lane must leave the lanes whose ids differ in a higher byte alone
+    let wide = |rocks: bool, cleared: &[usize], rng: &mut Rng| -> Vec<Op> {
+        let mut ops = vec![Op::Open(a("/w"))];
+        let n = 300usize;
+        for i in 0..n {
+            ops.push(Op::UpdateMap(a("/w"), format!("i{}", i), vec![(i % 7) as u8], vec![(i % 251) as u8]));
+            if i % 5 == 0 {
+                ops.push(Op::PutValue(a("/w"), format!("v{}", i), vec![(i % 13) as u8]));
+            }
+        }
+        let _ = rng;
+        for c in cleared {
+            ops.push(Op::ClearMap(a("/w"), format!("i{}", c)));
+        }
+        if rocks {
+            ops.push(Op::Reopen);
+            ops.push(Op::Open(a("/w")));
+        }
+        for i in 0..n {
+            ops.push(Op::ReadMap(a("/w"), format!("i{}", i)));
+        }
+        ops
+    };
+    let wide_cases = if args.tier == "thorough" { 6 } else { 2 };
+    for k in 0..wide_cases {
+        let picks: Vec<usize> = (0..3).map(|_| rng.usize_below(300)).chain([0usize, 150, 211, 299]).collect();
+        let ops = wide(k % 2 == 0, &picks, &mut rng);
+        emit(k % 2 == 0, &ops, &mut w);
+    }
+
     let _ = (AGENTS, ITEMS);
     for i in 0..args.cases {
         let rocks = i % 2 == 0;
@@ -390,7 +422,7 @@ fn main() {
     let meta = J::obj(vec![
         ("evaluations", J::I(w.len() as i128)),
         ("distinct_nontrivial", J::I(nontrivial as i128)),
-        ("rule", J::s("histories of open / close / reopen (RocksDB: close the database and open the plane again) and id_for+get/put/delete/update/remove/clear/read_map over 3 agents x 4 items, each (agent, item) of a fixed kind (a fifth of the in-memory histories mix kinds to exercise InvalidOperation; an eighth of the RocksDB histories use agent/item names whose '<agent>/<item>' concatenations collide); keys from a pool of adversarial byte strings (empty, 0x00, 0xff, shared prefixes, lengths 7..9 and 16..19 around the key prefix sizes) or random; every history ends by reading everything back (after a reopen for RocksDB); alternating back-ends; non-trivial = a read_map with >= 2 entries after a close / reopen; distinct by history")),
+        ("rule", J::s("first two (thorough: six) wide histories: 300 map items and 60 value items of one agent (lane ids pass 255 / 256 - ids are little-endian in the store keys), six of the maps cleared (among them the items with ids 1 and 255), a reopen, then every map read back; then histories of open / close / reopen (RocksDB: close the database and open the plane again) and id_for+get/put/delete/update/remove/clear/read_map over 3 agents x 4 items, each (agent, item) of a fixed kind (a fifth of the in-memory histories mix kinds to exercise InvalidOperation; an eighth of the RocksDB histories use agent/item names whose '<agent>/<item>' concatenations collide); keys from a pool of adversarial byte strings (empty, 0x00, 0xff, shared prefixes, lengths 7..9 and 16..19 around the key prefix sizes) or random; every history ends by reading everything back (after a reopen for RocksDB); alternating back-ends; non-trivial = a read_map with >= 2 entries after a close / reopen; distinct by history")),
         ("op_kinds", J::counts(&kinds)),
         ("backends", J::counts(&backends)),
         ("samples", J::A(samples)),
